@@ -8,7 +8,7 @@ use crate::{for_both, hx, Ctx, Tier};
 use blsful::*;
 use serde_json::json;
 
-pub const RULE: &str = "grid: edge scalars E (1,2,3,r-1,r-2,2^254,2^255-19 mod r,(r-1)/2,hash-derived,random) x message length classes x contents x 3 schemes x 2 group assignments, plus seeded random (key,len<=1024) cases in the thorough tier. Per case: sign twice (determinism), sign with the same scalar under the OTHER group assignment in between and sign again (history independence), verify, reference CoreVerify on the same bytes, then sk through {be,le,Vec,serde_bare,serde_json} must re-sign to the same bytes and sig' x pk' through {bytes,serde_bare,serde_json}^2 must verify. A case is distinct by (suite,scheme,sk,msg); non-trivial = signing succeeded and the pairing check was evaluated by both library and reference.";
+pub const RULE: &str = "grid: edge scalars E (1,2,3,r-1,r-2,2^254,2^255-19 mod r,(r-1)/2,hash-derived,random, plus 9 keys whose compressed public key ends with NUL/LF/CR/space/quote/backslash/DEL/0x80/0xff) x message length classes x contents x 3 schemes x 2 group assignments, plus seeded random (key,len<=1024) cases in the thorough tier. Per case: sign twice (determinism), sign with the same scalar under the OTHER group assignment in between and sign again (history independence), verify, reference CoreVerify on the same bytes, then sk through {be,le,Vec,serde_bare,serde_json} must re-sign to the same bytes and sig' x pk' through {bytes,serde_bare,serde_json}^2 must verify. A case is distinct by (suite,scheme,sk,msg); non-trivial = signing succeeded and the pairing check was evaluated by both library and reference.";
 
 pub fn run(ctx: &mut Ctx) {
     for_both!(run_suite, ctx);
@@ -22,7 +22,12 @@ fn run_suite<C: Suite>(ctx: &mut Ctx) {
     let base: u64 = if C::NAME == "G1Impl" { 0 } else { 1 << 32 };
     let mut g = base;
     let mut erng = ctx.rng_l(base, "edges");
-    let edges = gen::edge_scalars(&mut erng);
+    let mut edges = gen::edge_scalars(&mut erng);
+    // keys whose compressed public key ends with a byte that text-oriented handling treats
+    // specially (NUL, LF, CR, space, quote, backslash, DEL, 0x80, 0xff)
+    for (_b, k) in crate::codec::keys_with_special_pk_tail::<C>() {
+        edges.push(("pk-ends-with-special-byte", k));
+    }
     let contents: &[Content] = ctx.tier.pick(&[Content::Random][..], &CONTENTS[..]);
     for scheme in SCHEMES {
         for len in lengths(ctx.tier) {
